@@ -27,20 +27,6 @@ Proof.
   apply reachP_ind; [apply tokinv_init|]. intros. eapply tokinv_step; eauto.
 Qed.
 
-(* the queues never call cond.Broadcast: its blocked state does not occur in their runs *)
-Lemma nobcast_step c s l s' z :
-  lock s <> BBcast -> wf_label c l -> step c s l = Some (s', z) -> lock s' <> BBcast.
-Proof.
-  intros N W H. revert N W. unfold wf_label. revert H.
-  step_cases; intros N W; try contradiction; try congruence; try discriminate.
-Qed.
-
-Lemma reach_nobcast c s : reachable c s -> lock s <> BBcast.
-Proof.
-  intros R. revert s R. apply (reachP_ind (wf_label c) c (fun s => lock s <> BBcast)); [discriminate|].
-  intros s0 l s1 z _ I W H. eapply nobcast_step; eauto.
-Qed.
-
 Lemma sum_sz_app2 a b : sum_sz (a ++ b) = sum_sz a + sum_sz b.
 Proof. unfold sum_sz. rewrite map_app, sumZ_app. reflexivity. Qed.
 
@@ -99,7 +85,7 @@ Qed.
 
 (* a producer woken by a token is admitted exactly when its request now fits; otherwise it waits again *)
 Lemma relock_admitted_iff_l c s p s' z sz :
-  blocking c = true ->
+  blocking c = true -> 0 < sigs s ->
   pget p (prods s) = Some (PLeftTok sz) -> find_id p (faulty s) = None ->
   step c s (LRelockTok p) = Some (s', z) ->
   ((z = c_enq \/ z = c_await) <-> size s + sz <= cap c) /\
@@ -107,8 +93,8 @@ Lemma relock_admitted_iff_l c s p s' z sz :
   ((z = c_enq \/ z = c_await) -> acc s' = acc s ++ [p] /\ size s' = size s + sz) /\
   (z = c_blocked -> acc s' = acc s /\ size s' = size s /\ pget p (prods s') = Some (PInSelect sz)).
 Proof.
-  intros Hb Hp Hf H. revert Hb Hp Hf. revert H.
-  step_cases; unfold c_full, c_toolarge, c_blocked, c_enq, c_await, c_zero, c_invalid in *; intros Hb Hp Hf; try discriminate; inversion Hp; subst;
+  intros Hb Hg Hp Hf H. revert Hb Hg Hp Hf. revert H.
+  step_cases; unfold c_full, c_toolarge, c_blocked, c_enq, c_await, c_zero, c_invalid in *; intros Hb Hg Hp Hf; try discriminate; try lia; try congruence; inversion Hp; subst;
     repeat split; intros; ss; rewrite ?pget_pset_eq; try reflexivity; try lia; try discriminate; try tauto.
 Qed.
 
@@ -162,14 +148,14 @@ Qed.
 
 (* progress of the hand-off: whenever something is queued and the mutex is free, a Read returns the head *)
 Lemma read_enabled_l c s p sz r :
-  items s = (p, sz) :: r -> lock s = Free -> (kind c = Pers -> stopped s = false) ->
+  items s = (p, sz) :: r -> (kind c = Pers -> stopped s = false) ->
   exists s', step c s LRead = Some (s', 10 + Z.of_nat p) /\ hand s' = hand s ++ [p] /\ items s' = r.
 Proof.
-  intros Hi Hl Hs. unfold step, lock_free, read. rewrite Hl, Hi.
+  intros Hi Hs. unfold step, read. rewrite Hi.
   destruct (kind c) eqn:K.
   - eexists. split; [reflexivity|]. unfold handoff. ss. auto.
   - rewrite (Hs eq_refl). destruct r as [|x r'].
-    + eexists. split; [reflexivity|]. unfold handoff, signal, deliver. ss.
+    + eexists. split; [reflexivity|]. unfold handoff, signal. ss.
       destruct (waiting s =? 0); ss; [auto|]. destruct (tok s); ss; auto.
     + eexists. split; [reflexivity|]. unfold handoff. ss. auto.
 Qed.
@@ -181,18 +167,17 @@ Proof. intros Hc R E. rewrite <- (handoff_fifo_l c s Hc R), E. simpl. rewrite ap
 (* ---- the condition variable ------------------------------------------------------------------------- *)
 Lemma cond_token_invariant_l c s :
   reachable c s ->
-  cnt is_insel (prods s) + cnt is_leftctx (prods s) = waiting s + b2z (tok s) + sb s /\ 0 <= waiting s.
-Proof. intros R. destruct (reach_tokinv _ _ _ R) as (A1 & A2 & _). auto. Qed.
+  cnt is_insel (prods s) + cnt is_lefttok (prods s) + cnt is_leftctx (prods s) = waiting s + sigs s /\
+  0 <= waiting s /\ 0 <= sigs s /\
+  (0 < sigs s -> tok s = true \/ 0 < cnt is_lefttok (prods s)).
+Proof. intros R. destruct (reach_tokinv _ _ _ R) as (A1 & A2 & A3 & A4). auto. Qed.
 
-Lemma cancelled_waiter_reclaims_l c s p s' z :
-  reachable c s -> step c s (LRelockCtx p) = Some (s', z) ->
-  z = c_ctx /\ pget p (prods s') = Some (PRet RCtx) /\ lock s' = Free.
+(* a waiter whose context ended always gets the mutex and returns the context error (it never waits for a token) *)
+Lemma cancelled_waiter_reclaims_l c s p sz :
+  pget p (prods s) = Some (PLeftCtx sz) ->
+  exists s', step c s (LRelockCtx p) = Some (s', c_ctx) /\ pget p (prods s') = Some (PRet RCtx).
 Proof.
-  intros R H.
-  assert (T' : tokinv s') by (eapply tokinv_step; [exact (reach_tokinv _ _ _ R)|exact H]).
-  destruct T' as (_ & _ & _ & T4). revert T4. revert H.
-  step_cases; intros T4; rewrite ?pget_pset_eq; auto.
-  exfalso. eapply T4. reflexivity.
+  intros H. unfold step. rewrite H. destruct (waiting s =? 0); eexists; (split; [reflexivity|]); ss; apply pget_pset_eq.
 Qed.
 
 (* ---- wait for result ---------------------------------------------------------------------------------- *)
@@ -203,7 +188,7 @@ Lemma wait_for_result_own_outcome_l c s p :
   (pget p (prods s) = Some (PRet RCtx) -> In p (cancelled s)).
 Proof.
   intros Hc R. pose proof (handoff_exactly_once_l c s Hc R) as (_ & _ & _ & _ & _ & _ & NDF & _).
-  destruct (reachable_inv _ _ Hc R) as (_ & _ & _ & (D1 & D2 & D3 & D4 & D5)).
+  destruct (reachable_inv _ _ Hc R) as (_ & _ & _ & (D1 & D3 & D4 & D5)).
   split; [|apply D4].
   intros e Hp. split; [apply D3; exact Hp|].
   intros e' I'. pose proof (D3 _ _ Hp) as I.
